@@ -448,12 +448,57 @@ def chunk_buffers(cls: ast.ClassDef) -> T.Set[str]:
     return out
 
 
+def class_callables(cls: ast.ClassDef, find_class: T.Callable[[str], T.Optional[ast.ClassDef]], depth: int = 0) -> T.Dict[str, ast.FunctionDef]:
+    """Methods of a class body by name, including class-level aliases (`visit_A = visit_B`, `visit_A = Other.method`) and
+    `functools.partialmethod(f, <constants>)` bindings (read as f with its leading parameters replaced by the constants)."""
+    import copy
+    out: T.Dict[str, ast.FunctionDef] = {}
+    for st in cls.body:
+        if isinstance(st, ast.FunctionDef):
+            out[st.name] = st
+        elif isinstance(st, ast.Assign) and len(st.targets) == 1 and isinstance(st.targets[0], ast.Name) and depth < 3:
+            name, v = st.targets[0].id, st.value
+            if isinstance(v, ast.Name) and v.id in out:
+                out[name] = out[v.id]
+            elif isinstance(v, ast.Attribute) and isinstance(v.value, ast.Name):
+                k = find_class(v.value.id)
+                if k is not None:
+                    m = class_callables(k, find_class, depth + 1).get(v.attr)
+                    if m is not None:
+                        out[name] = m
+            elif isinstance(v, ast.Call) and (attr_chain(v.func) or '').split('.')[-1] == 'partialmethod' and v.args and isinstance(v.args[0], ast.Name) \
+                    and v.args[0].id in out and all(isinstance(a, ast.Constant) for a in v.args[1:]) and all(k.arg and isinstance(k.value, ast.Constant) for k in v.keywords):
+                f = out[v.args[0].id]
+                ps = params_of(f)[1:]
+                bound = dict(zip(ps, v.args[1:]))
+                bound.update({k.arg: k.value for k in v.keywords if k.arg in ps})
+                if len(v.args) - 1 > len(ps) or any(k.arg not in ps for k in v.keywords):
+                    continue
+                g = copy.deepcopy(f)
+                g.name = name
+                g.args.args = [a for a in g.args.args if a.arg not in bound]
+
+                class Sub(ast.NodeTransformer):
+                    def visit_Name(self, n: ast.Name) -> ast.AST:
+                        if n.id in bound and isinstance(n.ctx, ast.Load):
+                            return ast.copy_location(copy.deepcopy(bound[n.id]), n)
+                        return n
+                g.body = [Sub().visit(x) for x in g.body]
+                ast.fix_missing_locations(g)
+                out[name] = g
+    return out
+
+
 def fixed_spellings(repo: T.Any, model: NodeModel) -> T.Dict[str, str]:
     """Node classes that the full-fidelity printer replays as a constant text, whatever token they were built from:
     `RawPrinter.visit_<K>` appends one string constant and reads no field of the node."""
     pm = repo.module(PRINTER)
+    vm = repo.module(VISITOR)
     out: T.Dict[str, str] = {}
-    meths = pm.methods('RawPrinter')
+
+    def find_class(n: str) -> T.Optional[ast.ClassDef]:
+        return pm.cls(n) if pm.has_cls(n) else vm.cls(n) if vm.has_cls(n) else None
+    meths = class_callables(pm.cls('RawPrinter'), find_class)
     for name, fn in meths.items():
         if not name.startswith('visit_') or name[6:] not in model.classes:
             continue
